@@ -76,7 +76,7 @@ def run_verus_unit(repo, unit_name, variant, workdir, log, only_fns=None):
                                 items.insert(k, dict(kind="raw", label="R29 const " + h["name"],
                                                      text="pub const %s: %s = %s;\n" % (h["name"], mm.group(1).strip(), mm.group(2).strip())))
                             else:
-                                it["inline_helpers"] = list(it.get("inline_helpers", [])) + [h["name"]]
+                                it["inline_helpers"] = list(it.get("inline_helpers", [])) + [(h["name"], h.get("recv"))]
                             break
                 u2.ITEMS = items
             bu = V.build_unit(repo, u2, variant)
@@ -90,13 +90,25 @@ def run_verus_unit(repo, unit_name, variant, workdir, log, only_fns=None):
         probe = V.run_verus(bu, os.path.join(workdir, "probe_" + unit_name), rlimit=1, extra_args=["--no-verify"], timeout=120)
         missing = None
         for d in probe["diags"]:
-            m = _re0.match(r"no (?:method|function or associated item|associated function or constant|associated item) named `(\w+)` found for (?:struct|mutable reference|reference|enum) `", d["msg"])
+            m = _re0.match(r"no (?:method|function or associated item|associated function or constant|associated item) named `(\w+)` found for (?:struct|mutable reference|reference|enum) `([^`]*)`", d["msg"])
             if d["level"] == "error" and m and d["line"]:
                 fnmap0, _lm0 = _fn_ranges(bu)
                 owner = fnmap0.get(d["line"])
                 if owner and not any(h["name"] == m.group(1) for h in helpers):
-                    missing = {"name": m.group(1), "after": owner}
+                    # the receiver's type name (`&mut Foo<'_, T>` -> Foo) narrows the search when several types have such a method
+                    mt = _re0.search(r"([A-Za-z_][A-Za-z0-9_]*)\s*(?:<.*)?$", m.group(2).replace("&mut ", "").replace("&", "").strip())
+                    missing = {"name": m.group(1), "after": owner, "recv": mt.group(1) if mt else None}
                     break
+        if not missing:
+            # a free helper function (not a method) that the unit does not declare: inlined the same way
+            for d in probe["diags"]:
+                m = _re0.match(r"cannot find function `(\w+)` in this scope", d["msg"])
+                if d["level"] == "error" and m and d["line"] and not any(h["name"] == m.group(1) for h in helpers):
+                    fnmap0, _lm0 = _fn_ranges(bu)
+                    owner = fnmap0.get(d["line"])
+                    if owner:
+                        missing = {"name": m.group(1), "after": owner}
+                        break
         if not missing:
             # R29: a module-level constant the function refers to but the unit does not declare is copied from the same file
             for d in probe["diags"]:
@@ -246,8 +258,42 @@ def run_verus_unit(repo, unit_name, variant, workdir, log, only_fns=None):
         failed_count += 1
     # failures inside a function that contains a construct Verus models imprecisely are not refutations
     imprecise = {it.qualname(): it.imprecise for it in bu.items if getattr(it, "imprecise", None)}
+    _spans = []
+    if any(any(r.endswith("without a spliced contract") for r in rs) for rs in imprecise.values()):
+        # line ranges of closure bodies in the generated text: a PRECONDITION that fails at a call inside a closure body does not
+        # depend on the closure's missing contract (Verus verifies a closure body in the context of the enclosing function)
+        from .extract import _toks as _tk
+        try:
+            tk, mt = _tk(text)
+            for i, t in enumerate(tk):
+                if t.text in ("|", "||") and i > 0 and tk[i - 1].text in ("(", ","):
+                    pend = i
+                    if t.text == "|":
+                        pend = i + 1
+                        while pend < len(tk) and tk[pend].text != "|":
+                            pend += 1
+                    b0 = pend + 1
+                    if b0 < len(tk) and tk[b0].text == "{":
+                        b1 = mt[b0]
+                    else:
+                        k = b0
+                        while k < len(tk):
+                            if tk[k].text in ("(", "[", "{"):
+                                k = mt[k] + 1
+                                continue
+                            if tk[k].text in (")", ","):
+                                break
+                            k += 1
+                        b1 = k - 1
+                    if b0 < len(tk) and b1 < len(tk):
+                        _spans.append((text.count("\n", 0, tk[b0].start) + 1, text.count("\n", 0, tk[b1].end) + 1))
+        except Exception:
+            _spans = []
     def _is_screened(f):
         if f["function"] not in imprecise:
+            return False
+        if all(r.endswith("without a spliced contract") for r in imprecise[f["function"]]) and f["kind"].startswith("precondition not satisfied") \
+                and f.get("generated_line") and any(a <= f["generated_line"] <= b for a, b in _spans):
             return False
         # an integer overflow / division by zero does not depend on the value an unmodelled float cast yields: it stays a refutation
         if all(r.startswith("float cast") for r in imprecise[f["function"]]) and \
@@ -406,6 +452,22 @@ def main(argv=None):
                 variant = dict(pick[0])
                 r["alternatives_tried"] = [{"variant": a, "status": x["status"], "failed": [f["obligation"] for f in x.get("failures", [])],
                                             "undecided": x.get("undecided", [])} for a, x in tried]
+            elif variant and "refute_with" in variant:
+                # a unit whose full contract needs the code to keep a certain shape (e.g. a closure with a spliced contract) may
+                # name weaker variants that drop the shape-dependent parts and keep only obligations carried by stand-in
+                # preconditions.  They are consulted only when the full variant is UNDECIDED, and only a refutation counts:
+                # a weaker variant that passes leaves the verdict undecided.
+                base = {k: v for k, v in variant.items() if k != "refute_with"}
+                r = run_verus_unit(repo, unit_name, base, workdir, log, only_fns)
+                if r["status"] == "undecided":
+                    for alt in variant["refute_with"]:
+                        ra = run_verus_unit(repo, unit_name, dict(alt), workdir, log, only_fns)
+                        log("  full variant undecided; weaker variant %s -> %s" % (alt, ra["status"]))
+                        if ra.get("failures"):
+                            ra["full_variant_undecided"] = r.get("undecided", [])
+                            r = ra
+                            break
+                variant = base
             else:
                 r = run_verus_unit(repo, unit_name, variant, workdir, log, only_fns)
             results.append(r)
